@@ -1786,6 +1786,18 @@ where
             }
         }
 
+        // Verification builds: release the pages in ascending order instead of in the (per-process
+        // random) iteration order of the hash sets, so that the free list - and with it every later
+        // page allocation - is the same in every run of the same history.
+        #[cfg(feature = "verif")]
+        let (overflow_chains, visited) = {
+            let mut o: Vec<PageId> = overflow_chains.into_iter().collect();
+            let mut v: Vec<PageId> = visited.into_iter().collect();
+            o.sort();
+            v.sort();
+            (o, v)
+        };
+
         // Deallocate overflow chains (now deduplicated)
         for overflow_start in overflow_chains {
             self.dealloc_overflow_chain(overflow_start)?;
